@@ -398,3 +398,90 @@ func underscorePair(r *rand.Rand) (*genPod, *genPod) {
 	}
 	return mk(t1, t2+"_"+t3), mk(t1+"_"+t2, t3)
 }
+
+// ---------------------------------------------------------------------------------------------------------------
+// adversarial owner kinds: string-related to the kinds galaxy treats specially (FormatKey: "StatefulSet",
+// "ReplicaSet"; GetAppTypePrefix: statefulset, statefulsets, replicaset, deployment, NULL; TApp is the documented
+// third app type). All of them lower-case to a DNS-1035 label, i.e. a CRD may carry them as its kind.
+
+type advKind struct {
+	Kind     string `json:"kind"`
+	Relation string `json:"relation"` // kind-with-builtin-prefix | kind-with-builtin-suffix | kind-plural-of | kind-case-variant-of | kind-plural-case-variant-of
+	Builtin  string `json:"builtin"`
+}
+
+func (a advKind) tag() string { return a.Relation + "-" + strings.ToLower(a.Builtin) }
+
+var builtinKinds = []string{"StatefulSet", "ReplicaSet", "Deployment", "TApp", "NULL"}
+
+func advKindsOf(b string) []advKind {
+	var out []advKind
+	add := func(k, rel string) {
+		if k == b || len(validation.IsDNS1035Label(strings.ToLower(k))) != 0 {
+			return
+		}
+		for _, o := range out {
+			if o.Kind == k {
+				return
+			}
+		}
+		out = append(out, advKind{Kind: k, Relation: rel, Builtin: b})
+	}
+	for _, sfx := range []string{"Plus", "X", "2", "Set", "sPlus"} {
+		add(b+sfx, "kind-with-builtin-prefix")
+	}
+	for _, pfx := range []string{"X", "Game", "My", "Advanced"} {
+		add(pfx+b, "kind-with-builtin-suffix")
+	}
+	add(b+"s", "kind-plural-of")
+	add(strings.ToLower(b), "kind-case-variant-of")
+	add(strings.ToUpper(b), "kind-case-variant-of")
+	add(b[:1]+strings.ToLower(b[1:]), "kind-case-variant-of")
+	add(strings.ToLower(b)+"s", "kind-plural-case-variant-of")
+	return out
+}
+
+// kindClass is the app type an owner kind stands for, as documented (doc/float-ip.md: the key is
+// $kind_$namespace_$appName_$podName with the lower-cased kind; API doc: "deployment, statefulset or tapp"; the doc's
+// own example queries appType=statefulsets; ReplicaSets are treated as their Deployment). Kinds of one class are one
+// app type by design; kinds of different classes must never be confused.
+func kindClass(kind string) string {
+	l := strings.ToLower(kind)
+	switch l {
+	case "statefulset", "statefulsets":
+		return "statefulset"
+	case "replicaset", "deployment":
+		return "deployment"
+	}
+	return l
+}
+
+// builtinsOfOwnerClass: which special kinds a generated pod's owner stands for.
+func builtinsOfOwnerClass(oc string) []string {
+	switch oc {
+	case "statefulset":
+		return []string{"StatefulSet"}
+	case "replicaset-dash", "replicaset-nodash":
+		return []string{"ReplicaSet", "Deployment"}
+	case "deployment":
+		return []string{"Deployment", "ReplicaSet"}
+	case "tapp":
+		return []string{"TApp"}
+	case "none":
+		return []string{"NULL"}
+	}
+	return nil
+}
+
+// advSibling: the same namespace, pod name, pool and app name (as the key spells it) under an adversarial owner kind.
+func advSibling(r *rand.Rand, p *genPod, appName string, a advKind) *genPod {
+	q := p.Pod.DeepCopy()
+	if len(validation.IsDNS1123Subdomain(appName)) != 0 {
+		appName = dnsLabel(r) // pods without owner have no app name a real owner could carry
+	}
+	q.OwnerReferences = []metav1.OwnerReference{{Kind: a.Kind, Name: appName}}
+	c := *p
+	c.Pod = q
+	c.OwnerClass = "custom-kind"
+	return &c
+}
